@@ -126,6 +126,10 @@ func rulesRCFlow(c *Ctx, r *Report, cb *ssa.Function, tab *ssa.Global) {
 		// every output byte is that call's result
 		outOK, outWhy := rcOutputsAre(f, comp)
 		r.check(outOK, "FLOW-RC", where, "output bytes", c.pos(f.Pos()), "every byte appended/written is the result of that complementByte call", outWhy)
+		if name == "ReverseComplementString" {
+			rsOK, rsWhy := rcStringResults(c, f)
+			r.check(rsOK, "FLOW-RC", where, "result is the bytes written", c.pos(f.Pos()), "every return hands back exactly the complemented bytes: the builder's string, a slice appended to from empty, or ReverseComplement onto an empty destination", rsWhy)
+		}
 		// loop shape: the sequence of source indices over the iterations
 		law, why := indexLawOf(s, f, idx.Val)
 		if law == nil {
@@ -450,4 +454,66 @@ func zeroGuarded(f *ssa.Function, v ssa.Value) (bool, string) {
 func isZero(v ssa.Value) bool {
 	k, ok := cInt(constVal(v))
 	return ok && k == 0
+}
+
+// rcStringResults: what ReverseComplementString returns is built from nothing but the complemented bytes: the
+// String() of the builder that was written to, the string of a slice grown by append from an empty one, or the string
+// of ReverseComplement(dst, []byte(s)) with len(dst) == 0.
+func rcStringResults(c *Ctx, f *ssa.Function) (bool, string) {
+	p := newProver(c, f)
+	emptyLen := func(v ssa.Value) bool {
+		l := p.lenOf(v)
+		return l.isConst() && l.c == 0
+	}
+	var grown func(v ssa.Value, depth int) bool
+	grown = func(v ssa.Value, depth int) bool {
+		if depth > 8 {
+			return false
+		}
+		if isNilConst(v) || emptyLen(v) {
+			return true
+		}
+		switch x := v.(type) {
+		case *ssa.Phi:
+			for _, e := range x.Edges {
+				if e != v && !grown(e, depth+1) {
+					return false
+				}
+			}
+			return true
+		case *ssa.Call:
+			if b, ok := x.Call.Value.(*ssa.Builtin); ok && b.Name() == "append" {
+				return grown(x.Call.Args[0], depth+1)
+			}
+			if g := x.Call.StaticCallee(); g != nil && g == c.fn("sequtil", "ReverseComplement") && len(x.Call.Args) == 2 {
+				return emptyLen(x.Call.Args[0])
+			}
+		}
+		return false
+	}
+	why := ""
+	n := 0
+	instrs(f, func(in ssa.Instruction) {
+		rt, ok := in.(*ssa.Return)
+		if !ok || len(rt.Results) != 1 {
+			return
+		}
+		n++
+		switch x := rt.Results[0].(type) {
+		case *ssa.Call:
+			if methIs(x.Call.StaticCallee(), "strings", "Builder", "String") {
+				return
+			}
+			why = "a return hands back the result of " + callName(x)
+		case *ssa.Convert:
+			if !grown(x.X, 0) {
+				why = "a return converts a slice that does not start empty (or is not grown by appending complements): it carries bytes that are not complements of the input — e.g. ReverseComplement onto make([]byte, n) keeps n zero bytes in front"
+			}
+		case *ssa.Const:
+			// "" for empty input
+		default:
+			why = fmt.Sprintf("a return hands back %T", x)
+		}
+	})
+	return why == "" && n > 0, why
 }
